@@ -264,7 +264,7 @@ def shard(ctx):
         i += 1
         rng = ctx.rng
         g = gen.ProgGen(rng, n_macros=(0, 3), n_lets=(1, 4), n_maps=(0, 4), max_depth=rng.choice([2, 3, 4]), p_shadow=0.3,
-                        p_hostile_names=0.0, macro_sub=rng.random() < 0.4, p_usepulses=0.2, p_let_reg=0.4, p_let_count=0.5,
+                        p_hostile_names=0.0, macro_sub=rng.random() < 0.55, p_sub_count=0.8, p_usepulses=0.2, p_let_reg=0.4, p_let_count=0.5,
                         p_let_index=0.5, wild_numbers=rng.random() < 0.3, allow_reg_args=rng.random() < 0.3)
         prog = g.program()
         if rng.random() < 0.12:
